@@ -56,6 +56,10 @@ def check_lists(case, stats=None):
         is_update = text.lower().startswith('update')
     text = with_modifier(text)
     A0, B0 = case['A'], case.get('B')
+    if len(text) % 4 == 3:
+        # records given as tuples (a list of tuples is an ordinary Python table; whether the query succeeds is irrelevant here)
+        A0 = [tuple(r) for r in A0]
+        B0 = [tuple(r) for r in B0] if B0 is not None else None
     A, B = copy.deepcopy(A0), copy.deepcopy(B0)
     rowsA = list(A)
     rowsB = list(B) if B is not None else []
@@ -66,16 +70,16 @@ def check_lists(case, stats=None):
         r = engine.run_query_objects(text, A, B, a_names, b_names)
     if stats is not None:
         changed = is_update and r['error'] is None and r['out'] != A0
-        cl = ['lists', 'lists-update' if is_update else 'lists-select'] + (['lists-with-modifier'] if text.lower().rstrip().endswith(')') and ' with (' in text.lower() else [])
+        cl = ['lists', 'lists-update' if is_update else 'lists-select'] + (['lists-tuple-records'] if (A0 and isinstance(A0[0], tuple)) else []) + (['lists-with-modifier'] if text.lower().rstrip().endswith(')') and ' with (' in text.lower() else [])
         if r['error'] is not None:
             cl.append('lists-failing-' + r['error']['cls'])
         stats.case(case, bool(changed or r['error'] is not None), cl, sample={'query': text, 'A': A0, 'B': B0, 'error': r['error']})
     ctx = {'query': text, 'before': A0, 'after': A}
-    if A != A0 or len(A) != len(rowsA) or any(x is not y for x, y in zip(A, rowsA)):
+    if A != A0 or len(A) != len(rowsA) or any(x is not y for x, y in zip(A, rowsA)) or any(type(x) is not type(y) for x, y in zip(A, A0)):
         raise Violation('input-list-modified', ctx)
     if B0 is not None and (B != B0 or any(x is not y for x, y in zip(B, rowsB))):
         raise Violation('join-list-modified', {'query': text, 'before': B0, 'after': B})
-    ids = set(id(x) for x in rowsA + rowsB)
+    ids = set(id(x) for x in rowsA + rowsB if not isinstance(x, tuple))     # an output that is the caller's (immutable) tuple shares nothing that could be modified
     for o in r['out']:
         if id(o) in ids:
             raise Violation('output-aliases-source-row', {'query': text, 'record': o})
